@@ -94,4 +94,45 @@ def tupleJoin {α : Type} [Inhabited α] (parts : List (List α)) : R (List α) 
   let st ← forUp (tupleJoinCopyBody parts) parts.length 0 (Array.replicate total_len.toNat default, 0)
   pure st.1.toList
 
+/-- `janet_array_push`: `if (array->count == INT32_MAX) janet_panic("array overflow");
+      int32_t newcount = array->count + 1; janet_array_ensure(array, newcount, 2); array->data[array->count] = x; array->count = newcount;` -/
+def push {α : Type} (array : Array α) (x : α) : R (Array α) :=
+  if (array.size : Int) = int32Max then .panic else .ok (array.push x)
+
+def pushFromBody {α : Type} (vals : Array α) (j : Nat) (array : Array α) : R (Array α) := do
+  let v ← idx vals (j : Int)
+  push array v
+
+/-- `vals[j]` read from the array that is being extended (`array->data == vals`) -/
+def pushSelfBody {α : Type} (j : Nat) (array : Array α) : R (Array α) := do
+  let v ← idx array (j : Int)
+  push array v
+
+/-- one iteration of the argument loop of `cfun_array_concat`:
+      `switch (janet_type(argv[i])) { default: janet_array_push(array, argv[i]); break;
+         case JANET_ARRAY: case JANET_TUPLE: { int32_t j, len = 0; const Janet *vals = NULL;
+           janet_indexed_view(argv[i], &vals, &len);
+           if (array->data == vals) { int32_t newcount = array->count + len; janet_array_ensure(array, newcount, 2);
+                                      janet_indexed_view(argv[i], &vals, &len); }
+           for (j = 0; j < len; j++) janet_array_push(array, vals[j]); } break; }`
+    For the array itself `len` is its count *before* the pushes and `vals` is (re-fetched after the ensure) its own data. -/
+def concatPart {α : Type} (array : Array α) (part : ConcatArg α) : R (Array α) :=
+  match part with
+  | .item x => push array x
+  | .seq l => forUp (pushFromBody l.toArray) l.length 0 array
+  | .self => forUp pushSelfBody array.size 0 array
+
+/-- `for (i = 1; i < argc; i++) …` over the remaining arguments -/
+def concatLoop {α : Type} : Array α → List (ConcatArg α) → R (Array α)
+  | array, [] => .ok array
+  | array, part :: rest =>
+    match concatPart array part with
+    | .ok array' => concatLoop array' rest
+    | .panic => .panic
+    | .ub => .ub
+
+def concat {α : Type} (a : List α) (parts : List (ConcatArg α)) : R (List α) := do
+  let array ← concatLoop a.toArray parts
+  pure array.toList
+
 end JanetModel.Lib.ArrC
